@@ -1,6 +1,7 @@
 import MjProof.Lemmas.SolverCert
 import MjProof.Gen.C09Calls
 import Mathlib.LinearAlgebra.Matrix.NonsingularInverse
+import Mathlib.Algebra.Order.Star.Real
 /-
 C09  Forward and inverse dynamics agree.
 
@@ -135,6 +136,13 @@ theorem invdiscrete_euler (M : Matrix (Fin n) (Fin n) ℝ) (hM : M.PosDef) (B : 
   congr 2
   funext i
   simp [Matrix.mulVec_diagonal]
+
+/-- non-vacuity: `M = 1, B = 1, h = 1`: `a_c = 2` is integrated as `a_d = 1`, and the correction returns `2` -/
+example : ∃ (M : Matrix (Fin 1) (Fin 1) ℝ) (B : Fin 1 → ℝ) (h : ℝ) (ac ad x : Fin 1 → ℝ), M.PosDef ∧
+    (M + h • Matrix.diagonal B) *ᵥ ad = M *ᵥ ac ∧ M *ᵥ x = M *ᵥ ad + h • (fun i => B i * ad i) := by
+  refine ⟨1, fun _ => 1, 1, fun _ => 2, fun _ => 1, fun _ => 2, Matrix.PosDef.one, ?_, ?_⟩
+  · funext i; simp [Matrix.add_mulVec, Matrix.mulVec_diagonal]; norm_num
+  · funext i; simp; norm_num
 
 /-- **implicit / implicitfast.**  The integrator solves `(M − h·D) a_d = M a_c` (`D = ∂(smooth force)/∂v`, `qDeriv`);
     `mj_discreteAcc` computes `M⁻¹ (M − h·D) a_d = a_c`. -/
